@@ -101,6 +101,9 @@ pub struct ClassInfo {
     pub getters: Vec<(String, Ty)>,
     pub statics: Vec<(String, Vec<Ty>, Ty)>,
     pub ctor_params: Vec<Ty>,
+    /// Some(n): only ever used as a base class; TypeScript may declare it abstract with abstract
+    /// members am<n>/ap<n>/ag<n>/ao<n>, which every class derived from it implements
+    pub only_base: Option<usize>,
 }
 
 #[derive(Clone, Debug, PartialEq)]
@@ -168,6 +171,8 @@ pub struct Gen<'t, 'a, 'g> {
     pub no_big_vars: bool,
     /// round-robin counters so that operator × type pairs and library entries are all hit
     pub rr: BTreeMap<&'static str, usize>,
+    /// number of linked TypeScript-only block groups handed out
+    pub ts_groups: u32,
 }
 
 impl<'t, 'a, 'g> Gen<'t, 'a, 'g> {
@@ -194,6 +199,7 @@ impl<'t, 'a, 'g> Gen<'t, 'a, 'g> {
             no_numbers: false,
             no_big_vars: false,
             rr: BTreeMap::new(),
+            ts_groups: 0,
         }
     }
 
@@ -227,11 +233,23 @@ impl<'t, 'a, 'g> Gen<'t, 'a, 'g> {
 
     /// text that exists only in the TypeScript rendering (when the decoration keeps it)
     pub fn ts_only(&self, text: &str) -> String {
+        self.ts_only_group('0', text)
+    }
+
+    /// TypeScript-only text whose presence is decided together with every other block of the same
+    /// group (group '0' = decided on its own): TS_OPEN, group id, text, TS_CLOSE
+    pub fn ts_only_group(&self, group: char, text: &str) -> String {
         if self.cfg.ts_slots {
-            format!("{}{}{}", TS_OPEN, text, TS_CLOSE)
+            format!("{}{}{}{}", TS_OPEN, group, text, TS_CLOSE)
         } else {
             String::new()
         }
+    }
+
+    /// a fresh group id for linked TypeScript-only blocks
+    pub fn ts_group(&mut self) -> char {
+        self.ts_groups += 1;
+        char::from_u32(0x100 + self.ts_groups).unwrap_or('1')
     }
 
     pub fn declare(&mut self, name: &str, ty: Ty, mutable: bool) {
